@@ -4,8 +4,8 @@ C11 — Pt2/Pt3/Pt4 arithmetic is component-wise vector arithmetic.
 Property theorems only.  `α` is an arbitrary commutative ring / field; `ℝ` where a
 square root is needed.  Floating-point rounding is outside these statements (DESIGN §3.3).
 -/
-import ScadVerif.Lemmas.RealInst
-import ScadVerif.Model.Pt
+import ScadVerif.Lemmas.PtReal
+set_option linter.unusedSectionVars false
 namespace ScadVerif.C11
 open ScadVerif
 
@@ -191,34 +191,10 @@ end Components
 /-! ## len / normalized over ℝ -/
 section Real
 
-theorem pt2_len_sq (a : Pt2 ℝ) : a.len ^ 2 = a.len2 := by
-  have h : 0 ≤ a.len2 := by rw [pt2_len2]; positivity
-  simp [Pt2.len, Real.sq_sqrt h]
-theorem pt3_len_sq (a : Pt3 ℝ) : a.len ^ 2 = a.len2 := by
-  have h : 0 ≤ a.len2 := by rw [pt3_len2]; positivity
-  simp [Pt3.len, Real.sq_sqrt h]
-
-theorem pt2_len_pos {a : Pt2 ℝ} (h : a ≠ ⟨0, 0⟩) : 0 < a.len := by
-  have : 0 < a.len2 := by
-    rw [pt2_len2]
-    rcases a with ⟨x, y⟩
-    have : x ≠ 0 ∨ y ≠ 0 := by
-      by_contra hc; push_neg at hc; exact h (by rw [hc.1, hc.2])
-    rcases this with hx | hy
-    · have := sq_pos_of_ne_zero hx (a := x); positivity
-    · have := sq_pos_of_ne_zero hy (a := y); positivity
-  simpa [Pt2.len] using Real.sqrt_pos.mpr this
-theorem pt3_len_pos {a : Pt3 ℝ} (h : a ≠ ⟨0, 0, 0⟩) : 0 < a.len := by
-  have : 0 < a.len2 := by
-    rw [pt3_len2]
-    rcases a with ⟨x, y, z⟩
-    have : x ≠ 0 ∨ y ≠ 0 ∨ z ≠ 0 := by
-      by_contra hc; push_neg at hc; exact h (by rw [hc.1, hc.2.1, hc.2.2])
-    rcases this with hx | hy | hz
-    · have := sq_pos_of_ne_zero hx (a := x); positivity
-    · have := sq_pos_of_ne_zero hy (a := y); positivity
-    · have := sq_pos_of_ne_zero hz (a := z); positivity
-  simpa [Pt3.len] using Real.sqrt_pos.mpr this
+theorem pt2_len_sq (a : Pt2 ℝ) : a.len ^ 2 = a.len2 := Pt2.len_sq a
+theorem pt3_len_sq (a : Pt3 ℝ) : a.len ^ 2 = a.len2 := Pt3.len_sq a
+theorem pt2_len_pos {a : Pt2 ℝ} (h : a ≠ ⟨0, 0⟩) : 0 < a.len := Pt2.len_pos h
+theorem pt3_len_pos {a : Pt3 ℝ} (h : a ≠ ⟨0, 0, 0⟩) : 0 < a.len := Pt3.len_pos h
 
 /-- same direction: `normalized = (1/len) • a` -/
 theorem pt2_normalized_eq (a : Pt2 ℝ) : a.normalized = a * (1 / a.len) := by
@@ -230,23 +206,9 @@ theorem pt2_normalize_eq (a : Pt2 ℝ) : a.normalize = a.normalized := rfl
 theorem pt3_normalize_eq (a : Pt3 ℝ) : a.normalize = a.normalized := rfl
 
 theorem pt2_len_normalized {a : Pt2 ℝ} (h : a ≠ ⟨0, 0⟩) : a.normalized.len = 1 := by
-  have hl := pt2_len_pos h
-  have h2 := pt2_len_sq a
-  rw [pt2_len2] at h2
-  have : a.normalized.len2 = 1 := by
-    simp only [Pt2.normalized, Pt2.len2, Pt2.dot]
-    field_simp
-    nlinarith [h2]
-  simp [Pt2.len, this]
+  simp [Pt2.len, Pt2.normalized_len2 h]
 theorem pt3_len_normalized {a : Pt3 ℝ} (h : a ≠ ⟨0, 0, 0⟩) : a.normalized.len = 1 := by
-  have hl := pt3_len_pos h
-  have h2 := pt3_len_sq a
-  rw [pt3_len2] at h2
-  have : a.normalized.len2 = 1 := by
-    simp only [Pt3.normalized, Pt3.len2, Pt3.dot]
-    field_simp
-    nlinarith [h2]
-  simp [Pt3.len, this]
+  simp [Pt3.len, Pt3.normalized_len2 h]
 
 /-- `Pt4::normalized` normalises the xyz part and clears `w` -/
 theorem pt4_normalized_xyz (a : Pt4 ℝ) : a.normalized.asPt3 = a.asPt3.normalized := rfl
